@@ -149,7 +149,7 @@ Proof. exact (print_idempotent_on B64 canonical FmtStableOn_B64_lemma). Qed.
 
 (** every readable log *)
 Theorem B64_print_reads_back_log_lemma : forall (c : rconfig) (data : bytes) (L : list (lognode B64)),
-  forallb safe_tok (rc_date c) = true ->
+  forallb safe_tok (rc_date c) = true -> stable_layout (rc_date c) = true ->
   read_log B64 (rc_date c) data = Some L ->
   Forall (fun d => Forall (fun mp => documented_note mp = true) (notes_of B64 d)) L ->
   Forall (fun d => Forall (fun l => lengthN l < max_token) (day_lines B64 c d)) L ->
@@ -157,28 +157,28 @@ Theorem B64_print_reads_back_log_lemma : forall (c : rconfig) (data : bytes) (L 
   /\ print_output B64 c (map (reread_day B64) L) = print_output B64 c L
   /\ days_in B64 canonical (map (reread_day B64) L).
 Proof.
-  intros c data L Hsafe Hread Hnotes Hlen.
-  apply (print_reads_back_log_on B64 canonical FmtStableOn_B64_lemma c data L Hsafe Hread); try assumption.
+  intros c data L Hsafe Hst Hread Hnotes Hlen.
+  apply (print_reads_back_log_on B64 canonical FmtStableOn_B64_lemma c data L Hsafe Hst Hread); try assumption.
   apply (read_log_canonical_lemma _ _ _ Hread).
 Qed.
 
 Theorem B64_print_idempotent_log_lemma : forall (c : rconfig) (data : bytes) (L L' : list (lognode B64)),
-  forallb safe_tok (rc_date c) = true ->
+  forallb safe_tok (rc_date c) = true -> stable_layout (rc_date c) = true ->
   read_log B64 (rc_date c) data = Some L ->
   Forall (fun d => Forall (fun mp => documented_note mp = true) (notes_of B64 d)) L ->
   Forall (fun d => Forall (fun l => lengthN l < max_token) (day_lines B64 c d)) L ->
   read_log B64 (rc_date c) (print_output B64 c L) = Some L' ->
   print_output B64 c L' = print_output B64 c L.
 Proof.
-  intros c data L L' Hsafe Hread Hnotes Hlen H.
-  destruct (B64_print_reads_back_log_lemma c data L Hsafe Hread Hnotes Hlen) as (E & P & _).
+  intros c data L L' Hsafe Hst Hread Hnotes Hlen H.
+  destruct (B64_print_reads_back_log_lemma c data L Hsafe Hst Hread Hnotes Hlen) as (E & P & _).
   rewrite E in H. injection H as <-. exact P.
 Qed.
 
 (** the command, run twice *)
 Theorem B64_run_print_twice_log_lemma :
   forall (w1 w2 : world) (op : options) (c : rconfig) (data : bytes) (toks : list ltoken) (L : list (lognode B64)),
-    rc_date c = toks ->
+    rc_date c = toks -> stable_layout toks = true ->
     print_setting w1 op data toks -> read_log B64 toks data = Some L ->
     Forall (fun d => Forall (fun mp => documented_note mp = true) (notes_of B64 d)) (filter (in_period B64 op) L) ->
     Forall (fun d => Forall (fun l => lengthN l < max_token) (day_lines B64 c d)) (filter (in_period B64 op) L) ->
@@ -186,7 +186,7 @@ Theorem B64_run_print_twice_log_lemma :
     run_log B64 w2 op (rep_print B64 c) = run_log B64 w1 op (rep_print B64 c)
     /\ out_status (run_log B64 w1 op (rep_print B64 c)) = Ok.
 Proof.
-  intros w1 w2 op c data toks L Hc S1 Hread Hnotes Hlen S2.
+  intros w1 w2 op c data toks L Hc Hst S1 Hread Hnotes Hlen S2.
   apply (run_print_twice_log_on_all B64 canonical FmtStableOn_B64_lemma w1 w2 op c data toks L); try assumption.
   apply (read_log_canonical_lemma _ _ _ Hread).
 Qed.
@@ -253,7 +253,7 @@ Example messy_through_theorem :
   read_log B64 toks0 (print_output B64 (cfg toks0) messy_days) = Some (map (reread_day B64) messy_days)
   /\ print_output B64 (cfg toks0) (map (reread_day B64) messy_days) = print_output B64 (cfg toks0) messy_days.
 Proof.
-  destruct (B64_print_reads_back_log_lemma (cfg toks0) messy messy_days eq_refl messy_read
+  destruct (B64_print_reads_back_log_lemma (cfg toks0) messy messy_days eq_refl eq_refl messy_read
               messy_notes messy_lengths) as (H1 & H2 & _).
   split; assumption.
 Qed.
@@ -269,7 +269,7 @@ Example messy_run_twice :
   run_log B64 (world_with (out_stdout out1)) op_ex (rep_print B64 (cfg toks0)) = out1 /\ out_status out1 = Ok.
 Proof.
   cbv zeta.
-  apply (B64_run_print_twice_log_lemma (world_with messy) _ op_ex (cfg toks0) messy toks0 messy_days eq_refl
+  apply (B64_run_print_twice_log_lemma (world_with messy) _ op_ex (cfg toks0) messy toks0 messy_days eq_refl eq_refl
            (setting_ex messy) messy_read).
   - rewrite messy_period. exact messy_notes.
   - rewrite messy_period. exact messy_lengths.
